@@ -25,3 +25,18 @@ func Sleep(d time.Duration) {
 }
 
 const VirtualClock = true
+
+var clockBase int64
+
+// ResetClock puts the virtual clock back to where the process started. Every world is self-contained, so a new
+// world may start at the base instant again; without this a shard that runs hundreds of cases with +10-year advances
+// walks past the year 2157/2262 limits of time.Time and of int64 nanoseconds ("timer when must be positive").
+func ResetClock() {
+	if clockBase == 0 {
+		clockBase = runtimeFaketime
+		return
+	}
+	if runtimeFaketime-clockBase > int64(24*time.Hour) {
+		runtimeFaketime = clockBase
+	}
+}
